@@ -43,6 +43,11 @@ def _classify(frame):
     key = (id(code), frame.f_lineno, frame.f_lasti)
     if code.co_filename.endswith("threading.py"):
         if code.co_name == "wait":
+            # Thread.start() waits for the new thread to report that it runs: that thread has no frame yet and is invisible
+            # to the sampler, but it is about to run - the starter is not parked, a step is in progress
+            up = frame.f_back.f_back if frame.f_back is not None else None
+            if up is not None and up.f_code.co_name == "start" and up.f_code.co_filename.endswith("threading.py"):
+                return "running", key
             return ("untimed" if frame.f_locals.get("timeout", None) is None else "timed"), key
         if code.co_name == "_wait_for_tstate_lock":
             t = frame.f_locals.get("timeout", -1)
